@@ -131,6 +131,23 @@ impl Property for C04 {
                 }
             }
         }
+        // (iii-a) every length up to the dense bound
+        for (t, n) in dense_lengths(tier) {
+            if !sh.mine() {
+                continue;
+            }
+            let a = dense_value(n);
+            for owned in [false, true] {
+                if !f(C04Case::Not { a: Operand::canon(t, a.clone()), owned }) {
+                    return;
+                }
+            }
+            rot += 1;
+            let c = C04Case::Bin { a: Operand::canon(t, a.clone()), b: Rhs::V(Operand::canon(if n % 3 == 0 { TID_D } else { TID_A }, Bits::ones(n + 1))), op: LOGIC[n % 3], form: FORMS[rot % 6] };
+            if !f(c) {
+                return;
+            }
+        }
         // (iii-b) thousands of bits
         for lt in [TID_D, TID_A, 18u8] {
             for rt in [TID_D, TID_A, 18u8, 9u8] {
